@@ -304,7 +304,6 @@ Fixpoint sortedB (l : list b64) : bool :=
   end.
 
 Definition no_nan (l : list b64) : bool := forallb (fun x => negb (bis_nan x)) l.
-Definition all_finite (l : list b64) : bool := forallb (fun x => is_finite x) l.
 
 Definition in_code_range (bits c : Z) : bool := (0 <=? c) && (c <=? 2 ^ bits - 1).
 
